@@ -69,16 +69,22 @@ func (c *hdrCase) checkStatic(symProbe []int) string {
 		}
 	}
 	// symbols: in order, probes (repeats exercise the lookup cache), reverse order, out of range.
+	v1 := ref.ir.Version() == index.FormatV1
 	look := func(i int) string {
-		s, err := rd.LookupSymbol(ctx, uint32(i))
 		if i >= len(ref.symbols) {
+			o := uint32(i)
+			if v1 {
+				o = uint32(len(ref.raw) + 100000 + i) // v1 refs are byte offsets: only far out of the file is "unknown"
+			}
+			s, err := rd.LookupSymbol(ctx, o)
 			if err == nil {
-				return fmt.Sprintf("LookupSymbol(%d) = %q, nil but the index has only %d symbols", i, s, len(ref.symbols))
+				return fmt.Sprintf("LookupSymbol(%d) = %q, nil but the index has only %d symbols", o, s, len(ref.symbols))
 			}
 			return ""
 		}
+		s, err := rd.LookupSymbol(ctx, ref.symRefs[i])
 		if err != nil || s != ref.symbols[i] {
-			return fmt.Sprintf("LookupSymbol(%d) = %q, %v; full index says %q", i, s, err, ref.symbols[i])
+			return fmt.Sprintf("LookupSymbol(%d) = %q, %v; full index says %q", ref.symRefs[i], s, err, ref.symbols[i])
 		}
 		return ""
 	}
